@@ -768,8 +768,7 @@ class Table(Vector):
 		# CASE A: Scalar Assignment (Broadcast)
 		# t[0:5, 'A'] = 10
 		if not isinstance(value, Iterable) or isinstance(value, (str, bytes, bytearray)):
-			for col_idx in target_indices:
-				self._underlying[col_idx][row_spec] = value
+			self._assign_columns([(col_idx, row_spec, value) for col_idx in target_indices])
 			return
 
 		# CASE B: Single Row Assignment
@@ -783,8 +782,7 @@ class Table(Vector):
 					f"but value has {len(val_seq)} items."
 				)
 			
-			for i, col_idx in enumerate(target_indices):
-				self._underlying[col_idx][row_spec] = val_seq[i]
+			self._assign_columns([(col_idx, row_spec, val_seq[i]) for i, col_idx in enumerate(target_indices)])
 			return
 
 		# CASE C: Rectangular/Table Assignment
@@ -797,8 +795,7 @@ class Table(Vector):
 				)
 			
 			# We delegate row-length validation to the vector.__setitem__ calls below
-			for i, col_idx in enumerate(target_indices):
-				self._underlying[col_idx][row_spec] = value.cols()[i]
+			self._assign_columns([(col_idx, row_spec, value.cols()[i]) for i, col_idx in enumerate(target_indices)])
 			return
 
 		# CASE D: Raw 2D Iterable Assignment (List of Columns? List of Rows?)
@@ -820,11 +817,36 @@ class Table(Vector):
 				raise SerifValueError(f"Shape mismatch: expected {len(target_indices)} columns/items.")
 			
 			# Assume value[i] corresponds to target_indices[i]
-			for i, col_idx in enumerate(target_indices):
-				self._underlying[col_idx][row_spec] = value[i]
+			self._assign_columns([(col_idx, row_spec, value[i]) for i, col_idx in enumerate(target_indices)])
 			return
 
 		raise SerifTypeError(f"Unsupported assignment value type: {type(value)}")
+
+	def _assign_columns(self, assignments):
+		"""
+		Apply [(column index, row key, value), ...] all-or-nothing.
+		
+		Each column validates and swaps its own storage atomically, but an
+		assignment that spans several columns must not keep the first columns
+		written when a later one fails (bad index, length mismatch, incompatible
+		value, or a value that raises while it is being read).
+		"""
+		staged = []
+		for col_idx, row_spec, val in assignments:
+			# read caller-supplied iterables exactly once
+			if isinstance(val, Iterable) and not isinstance(val, (str, bytes, bytearray, Vector, list, tuple)):
+				val = list(val)
+			elif type(val) not in (list, tuple) and isinstance(val, (list, tuple)):
+				val = list(val)
+			staged.append((col_idx, row_spec, val))
+		
+		if len(staged) > 1:
+			# dry run on copies of the target columns
+			for col_idx, row_spec, val in staged:
+				self._underlying[col_idx].copy()[row_spec] = val
+		
+		for col_idx, row_spec, val in staged:
+			self._underlying[col_idx][row_spec] = val
 
 	def __iter__(self):
 		"""
